@@ -64,6 +64,8 @@ def circuit_fp(circ):
                 wire.append((type(op).__name__, tuple(op.q_registers), tuple(op.q_registers_type), tuple(op.c_registers),
                              tuple(g.__name__ for g in getattr(op, "operations", ())), tuple(sorted(op.labels)), noise_fp(op.noise)))
             out.append(tuple(wire))
+    # edge attributes are part of the object other functions read (e.g. the GED comparison compares them)
+    out.append(tuple(sorted((str(u), str(v), str(k), tuple(sorted((a, repr(b)) for a, b in d.items()))) for u, v, k, d in circ.dag.edges(keys=True, data=True))))
     return tuple(out)
 
 
@@ -345,9 +347,8 @@ def run_history(hseed, ctx, m):
         fp2 = pool.fingerprints()
         for k, v in fp.items():
             if k in fp2 and fp2[k] != v:
-                what = "noise" if (k.startswith("circuit") or k.startswith("derived")) and \
-                    [tuple(x[:6] for x in w) if isinstance(w, tuple) and w and isinstance(w[0], tuple) else w for w in v] == \
-                    [tuple(x[:6] for x in w) if isinstance(w, tuple) and w and isinstance(w[0], tuple) else w for w in fp2[k]] else "content"
+                strip = lambda f: [tuple(x[:6] for x in w) if isinstance(w, tuple) and w and isinstance(w[0], tuple) and len(w[0]) == 7 else w for w in f]
+                what = "noise" if (k.startswith("circuit") or k.startswith("derived")) and strip(v) == strip(fp2[k]) else "content"
                 ctx.violation("input_object_mutated", {"kind": "history", "hseed": hseed}, {"object": k, "changed": what, "by_call": desc, "history": calls[-6:]},
                               key=f"mutated:{k.rstrip('0123456789')}:{name}:{what}")
                 ctx.case(("h", tuple(hseed)), True)
